@@ -189,11 +189,11 @@ func (r record) appendTo(b *bytes.Buffer) {
 }
 
 type caseJSON struct {
-	Kind string `json:"kind"`
-	Text string `json:"text"` // human readable (%q of the fields)
-	F1   string `json:"f1_hex"`
-	F2   string `json:"f2_hex,omitempty"`
-	F3   string `json:"f3_hex,omitempty"`
+	Kind string    `json:"kind"`
+	Text string    `json:"text"` // human readable (%q of the fields)
+	F1   string    `json:"f1_hex"`
+	F2   string    `json:"f2_hex,omitempty"`
+	F3   string    `json:"f3_hex,omitempty"`
 	Yaml *yamlCase `json:"yaml,omitempty"`
 }
 
@@ -312,13 +312,13 @@ const tagMaxLen = 256 // SNAP_SECURITY_TAG_MAX_LEN; the statement only speaks ab
 // judging
 
 type judge struct {
-	r          *eng.Run
-	suppressed int64
-	evals      int64
-	nontrivial int64
+	r           *eng.Run
+	suppressed  int64
+	evals       int64
+	nontrivial  int64
 	refDisagree int64
-	mu         sync.Mutex
-	patterns   map[string]int64
+	mu          sync.Mutex
+	patterns    map[string]int64
 }
 
 func (j *judge) full() bool {
